@@ -12,7 +12,8 @@ RULE_PREFIX = ('random thread-level label sequences on the real pool (profiles c
                'compared on the projection of this property after every label; non-trivial = distinct '
                'label sequence that ')
 BIN = os.path.join(TARGET, 'debug', 'h1_managed')
-PROPS = ['C01', 'C02', 'C03', 'C04', 'C06', 'C07', 'C08', 'C09', 'C11', 'C13']
+BIN2 = os.path.join(TARGET, 'debug', 'h2_timeouts')
+PROPS = ['C01', 'C02', 'C03', 'C04', 'C06', 'C07', 'C08', 'C09', 'C10', 'C11', 'C13']
 
 # ------------------------------------------------------------------ batches
 def batches(tier):
@@ -32,6 +33,24 @@ def gen_traces(seed, profile, n, maxlabels):
     return traces
 
 
+def gen_traces_h2(seed, n, maxlabels):
+    """task-level traces on a paused tokio clock (pool with a runtime; timeouts can fire)"""
+    p = subprocess.run([BIN2, 'gen', str(seed), str(n), str(maxlabels)],
+                       stdout=subprocess.PIPE, stderr=subprocess.PIPE, text=True, timeout=3000)
+    traces = [json.loads(l) for l in p.stdout.splitlines() if l.strip()]
+    for t in traces:
+        t['profile'] = 'h2'
+        t['kind'] = 'h2'
+    if p.returncode != 0 or len(traces) != n:
+        raise RuntimeError('h2 harness failed (rc %d, %d/%d traces): %s' % (p.returncode, len(traces), n, p.stderr[-500:]))
+    return traces
+
+
+def build_table():
+    p = subprocess.run([BIN2, 'build'], stdout=subprocess.PIPE, stderr=subprocess.PIPE, text=True, timeout=300)
+    return [json.loads(l) for l in p.stdout.splitlines() if l.strip()]
+
+
 def replay_traces(items):
     """items: list of dict(cfg, labels) -> traces with obs from the real code"""
     os.makedirs(WORK, exist_ok=True)
@@ -39,12 +58,15 @@ def replay_traces(items):
     with open(path, 'w') as f:
         for it in items:
             f.write(json.dumps({'cfg': it['cfg'], 'labels': it['labels']}) + '\n')
-    p = subprocess.run([BIN, 'replay', path], stdout=subprocess.PIPE, stderr=subprocess.PIPE, text=True, timeout=3000)
+    h2 = bool(items) and items[0].get('kind') == 'h2'
+    p = subprocess.run([BIN2 if h2 else BIN, 'replay', path], stdout=subprocess.PIPE, stderr=subprocess.PIPE, text=True, timeout=3000)
     os.remove(path)
     traces = [json.loads(l) for l in p.stdout.splitlines() if l.strip()]
     if p.returncode != 0 or len(traces) != len(items):
         raise RuntimeError('harness replay failed: %s' % p.stderr[-500:])
     for t, it in zip(traces, items):
+        if it.get('kind'):
+            t['kind'] = it['kind']
         t['profile'] = it.get('profile', 'corpus')
         t['name'] = it.get('name', '')
         t['want_labels'] = it['labels']
@@ -64,14 +86,32 @@ def load_corpus():
     return items
 
 
+def mcfg(t):
+    return t['cfg'] if t.get('kind') == 'h2' else t['cfg'] + [0]
+
+
 def model_diff(traces, tag='d'):
-    cases = [(t['cfg'] + [0], t['labels'], t['obs']) for t in traces]
-    return corr.run_diff(tag, 'Managed.Decode', 'diff_case_z', cases, shard=30)
+    """per trace: index of the first label after which model and implementation differ (-1: none);
+    H1 traces are replayed step by step, H2 (task-level) traces by macro steps"""
+    res = [None] * len(traces)
+    for kind, runner in (('h1', 'diff_case_z'), ('h2', 'diff_case_macro_z')):
+        idx = [i for i, t in enumerate(traces) if t.get('kind', 'h1') == kind]
+        if idx:
+            cases = [(mcfg(traces[i]), traces[i]['labels'], traces[i]['obs']) for i in idx]
+            for i, d in zip(idx, corr.run_diff(tag + kind, 'Managed.Decode', runner, cases, shard=30)):
+                res[i] = d
+    return res
 
 
 def model_obs(traces, tag='m'):
-    cases = [(t['cfg'] + [0], t['labels']) for t in traces]
-    return corr.run_model(tag, 'Managed.Decode', 'run_case_z', cases, shard=25)
+    res = [None] * len(traces)
+    for kind, runner in (('h1', 'run_case_z'), ('h2', 'run_case_macro_z')):
+        idx = [i for i, t in enumerate(traces) if t.get('kind', 'h1') == kind]
+        if idx:
+            cases = [(mcfg(traces[i]), traces[i]['labels']) for i in idx]
+            for i, m in zip(idx, corr.run_model(tag + kind, 'Managed.Decode', runner, cases, shard=25)):
+                res[i] = m
+    return res
 
 
 # ------------------------------------------------------------------ projections
@@ -112,6 +152,8 @@ PROJ = {
     'C08': lambda d: (idle_ids(d), d['tasks'], evs(d, {1, 2, 3, 4, 6, 7, 11})),
     'C09': lambda d: (d['alive'], d['size'], d['permits'], d['debt'], idle_ids(d), d['tasks'],
                       evs(d, {4, 5, 7, 8, 9})),
+    'C10': lambda d: (d['alive'], d['permits'], d['users'], d['size'], d['debt'], d['closed'], idle_ids(d), d['tasks'],
+                      evs(d, {1, 4, 5, 6, 11})),
     'C11': lambda d: (d['alive'], d['size'], d['max'], d['users'], len(d['idle']), d['tasks'], evs(d, {10})),
     'C13': lambda d: (d['idle'], d['tasks'], evs(d, {2, 3, 6, 7, 12}, metrics=True)),
 }
@@ -269,6 +311,39 @@ def monitor_trace(t, P):
                 if d[name] < 0 or d[name] > 10 ** 6:
                     fail('C11', i, '%s wrapped: %d' % (name, d[name]))
                     fail('C02', i, '%s wrapped: %d' % (name, d[name]))
+        # C10: timeouts
+        h2 = t.get('kind') == 'h2'
+        for tt, c in enumerate(d['tasks']):
+            op = ops.get(tt)
+            if op is None or op[2] != 0:
+                continue
+            tk = op[3]
+            w_, c_, r_ = tk % 3, (tk // 3) % 3, (tk // 9) % 3
+            if c == 103:
+                fail('C10', i, 'get of task %d returned Timeout(Recycle)' % tt)
+                fail('C04', i, 'get of task %d returned Timeout(Recycle)' % tt)
+            if h2 and c == 107:
+                fail('C10', i, 'NoRuntimeSpecified although the pool has a runtime (task %d)' % tt)
+            if w_ == 1 and c in (3, 4):
+                fail('C10', i, 'get with a zero wait timeout is parked waiting for a slot (task %d)' % tt)
+            if not h2 and c >= 100:
+                if r_ != 0 and c != 107:
+                    fail('C10', i, 'recycle timeout without runtime: task %d ended with %d, not NoRuntimeSpecified' % (tt, c - 100))
+                if r_ == 0 and w_ == 2 and c not in (107,):
+                    fail('C10', i, 'finite wait timeout without runtime: task %d ended with %d, not NoRuntimeSpecified' % (tt, c - 100))
+            if not h2 and c == 50 and c_ != 0:
+                fail('C10', i, 'create timeout without runtime, but Manager::create was called (task %d)' % tt)
+        if l[0] == 5 and i > 0:
+            before = P[i - 1]['tasks'][l[1]] if l[1] < len(P[i - 1]['tasks']) else None
+            after = d['tasks'][l[1]]
+            if before == 3 and after != 101:
+                fail('C10', i, 'wait deadline passed for task %d: state %s, expected Timeout(Wait)' % (l[1], after))
+            if before == 50 and after != 102:
+                fail('C10', i, 'create deadline passed for task %d: state %s, expected Timeout(Create)' % (l[1], after))
+            if before == 30 and after == 103:
+                fail('C10', i, 'recycle deadline passed for task %d: get ended with Timeout(Recycle)' % l[1])
+            if before == 30 and not any(e[0] == 4 for e in d['events']):
+                fail('C10', i, 'recycle deadline passed for task %d but the object was not discarded' % l[1])
         creating = sum(1 for c in d['tasks'] if c == 50)
         if norc and d['alive']:
             if len(tr.live - taking) + creating > max0:
@@ -324,7 +399,8 @@ def nontrivial(t):
     close = any(l[0] == 0 and l[2] == 5 for l in ls)
     retain = any(l[0] == 0 and l[2] in (2, 4) for l in ls)
     blocked = any(c in (3, 4) for o in t['obs'] for c in [])  # filled by caller
-    return dict(fault=fault, cancel=cancel, resize=resize, close=close, retain=retain)
+    timeout = any(l[0] == 5 for l in ls) or any(l[0] == 0 and l[2] == 0 and l[3] != 0 for l in ls)
+    return dict(fault=fault, cancel=cancel, resize=resize, close=close, retain=retain, timeout=timeout)
 
 
 RULES = {
@@ -336,6 +412,8 @@ RULES = {
     'C07': ('contains a resize()', lambda n: n['resize']),
     'C08': ('contains a fault outcome, retain/take or resize', lambda n: n['fault'] or n['retain'] or n['resize']),
     'C09': ('contains retain() or take()', lambda n: n['retain']),
+    'C10': ('uses a zero or finite timeout (runtime present: a deadline fires; runtime absent: NoRuntimeSpecified paths)',
+            lambda n: n['timeout']),
     'C11': ('contains a fault, cancellation, resize or close', lambda n: n['fault'] or n['cancel'] or n['resize'] or n['close']),
     'C13': ('contains a fault outcome or a cancellation', lambda n: n['fault'] or n['cancel']),
 }
@@ -343,8 +421,9 @@ RULES = {
 
 # ------------------------------------------------------------------ the engine run
 def engine_key(seed, tier):
-    h = [common.file_hash(BIN), common.vo_hash('Managed'), common.vo_hash('Common')]
-    for p in sorted(glob.glob(os.path.join(VERIF, 'lib', '*.py'))) + sorted(glob.glob(os.path.join(VERIF, 'corpus', 'managed', '*.json'))):
+    h = [common.file_hash(BIN), common.file_hash(BIN2), common.vo_hash('Managed'), common.vo_hash('Common')]
+    mine = [os.path.join(VERIF, 'lib', n) for n in ('managed.py', 'mobs.py', 'corr.py', 'common.py')]
+    for p in mine + sorted(glob.glob(os.path.join(VERIF, 'corpus', 'managed', '*.json'))):
         h.append(common.file_hash(p))
     import hashlib
     return hashlib.sha1(('|'.join(h) + '|%s|%s' % (seed, tier)).encode()).hexdigest()[:16]
@@ -422,6 +501,8 @@ def run_engine(seed, tier):
     ncorpus = len(traces)
     for bi, (profile, n, ml) in enumerate(batches(tier)):
         traces += gen_traces(seed * 1000 + bi, profile, n, ml)
+    traces += gen_traces_h2(seed * 1000 + 77, 2500 if tier == 'thorough' else 160, 45)
+    table = build_table()
     t1 = time.time()
     # fast path: the comparison of the full observation runs inside Coq; only for traces that
     # differ somewhere the model's observations are printed and compared per projection
@@ -434,6 +515,14 @@ def run_engine(seed, tier):
     t2 = time.time()
     res = analyze(traces, mo)
     res['full_obs_differ'] = len(bad)
+    # PoolBuilder::build: error iff a pool-level timeout is configured and no runtime is given
+    for row in table:
+        want = 1 if (row['code'] != 0 and not row['runtime']) else 0
+        if row['result'] != want:
+            res['props']['C10']['monitor_fails'].append(dict(
+                trace=-1, step=0, msg='build() with timeouts code %d, runtime %d returned %d, expected %d'
+                % (row['code'], row['runtime'], row['result'], want)))
+    res['build_table_rows'] = len(table)
     res.update(ntraces=len(traces), ncorpus=ncorpus, key=key, seed=seed, tier=tier,
                timing=dict(gen_s=round(t1 - t0, 1), model_s=round(t2 - t1, 1), analyze_s=round(time.time() - t2, 1)))
     # keep the traces needed for replays and samples
